@@ -257,6 +257,27 @@ def check(repo: Repo, run: Run) -> None:
     run.floor("R3", "optional keys", n_opt, 28)
     run.analysed["optional_keys"] = n_opt
 
+    # ------------------------------------------------------------------ R9 the values the format defines
+    # "the exact inverse of its bit packing for every namespace/type/flag value the format defines": the names the decoder
+    # gives to namespace / type / flag values are those of libdispatch's firehose headers (oracles/darwin.FIREHOSE)
+    from ..oracles import darwin
+    n_ref = 0
+    for cname, ref in sorted(darwin.FIREHOSE.items()):
+        ec = mod.classes.get(cname)
+        if ec is None or not ec.enum_kind:
+            run.note(f"{cname}: not an enum of os_log_event any more (values not compared)")
+            continue
+        have = ec.member_dict()
+        for mname, want in sorted(ref.items()):
+            if mname not in have:
+                continue
+            n_ref += 1
+            run.ob("R9", MOD, cname, f"{mname} == {want:#x}", have[mname] == want,
+                   f"{cname}.{mname} is {have[mname]!r} but the format defines {want:#x}: identifiers carrying that value are shown "
+                   f"under another name (and {have[mname]!r} is shown as {mname})", nontrivial=False, line=ec.node.lineno,
+                   witness=f"a trace identifier whose field holds {want:#x}")
+    run.floor("R9", "firehose values compared with the reference", n_ref, 30)
+
     # ------------------------------------------------------------------ R4 trace identifier
     lay_node = repo.constant("os_log_event", "firehose_tracepoint_id")
     layout = cstruct.CEval(repo, mod).ev(lay_node)
